@@ -416,7 +416,7 @@ class FnTranslator:
             return Ret(v)
 
         self.k_fn = k_fn
-        body = simplify(self.block(f["body"], env, k_fn, tailpos=True))
+        body = simplify(self.block(f["body"], env, k_fn, tailpos=True, want=self.ret_kind))
         rt = coq_type(self.ret_kind)
         if self.self_mode == "mut":
             st = coq_type(REC(self.owner))
@@ -446,26 +446,27 @@ class FnTranslator:
                     [(n, self.kind(ty, f["line"])) for n, ty in f["params"]]])
 
     # ---- blocks / statements ----
-    def block(self, blk, env, k, tailpos=False):
+    def block(self, blk, env, k, tailpos=False, want=None):
+        """tailpos: the block's value is the value of the function; want: the representation the context needs"""
         _, line, stmts, tail = blk
-        return self.stmts(stmts, 0, tail, dict(env), k, tailpos)
+        return self.stmts(stmts, 0, tail, dict(env), k, tailpos, want)
 
-    def stmts(self, stmts, i, tail, env, k, tailpos):
+    def stmts(self, stmts, i, tail, env, k, tailpos, want=None):
         if i == len(stmts):
             if tail is None:
                 return k(env, "tt", UNIT)
-            return self.expr(tail, env, k, tailpos=tailpos)
+            return self.expr(tail, env, k, tailpos=tailpos, want=want)
         st = stmts[i]
-        rest = lambda env2: self.stmts(stmts, i + 1, tail, env2, k, tailpos)  # noqa: E731
+        rest = lambda env2: self.stmts(stmts, i + 1, tail, env2, k, tailpos, want)  # noqa: E731
         kind = st[0]
         if kind == "let":
             _, ln, mut, pat, rhs, ann = st
-            want = self.kind(ann, ln) if ann is not None else None
+            lwant = self.kind(ann, ln) if ann is not None else None
 
             def after(env2, v, vk):
                 env3 = dict(env2)
-                if want is not None and not kinds_agree(vk, want):
-                    err(ln, f"`let` annotated {qty_text(ann)} ({want}) but the value has the representation {vk}")
+                if lwant is not None and not kinds_agree(vk, lwant):
+                    err(ln, f"`let` annotated {qty_text(ann)} ({lwant}) but the value has the representation {vk}")
                 if pat[0] == "pvar":
                     name = pat[2]
                     self.bindable(vk, ln)
@@ -488,7 +489,7 @@ class FnTranslator:
                             names.append("v_" + n)
                     return mk_bind("(" + ", ".join(names) + ")", Ret(v), rest(env3))
                 err(ln, "unsupported pattern")
-            return self.expr(rhs, env, after, want=want)
+            return self.expr(rhs, env, after, want=lwant)
         if kind == "return":
             _, ln, e = st
             if i + 1 != len(stmts) or tail is not None:
@@ -506,7 +507,7 @@ class FnTranslator:
                     def after_c(env2, cv, ck):
                         if ck != BOOL:
                             err(iln, "condition is not a bool")
-                        t1 = self.block(then, env2, lambda *a: err(iln, "internal: diverging block fell through"), tailpos=True)
+                        t1 = self.block(then, env2, lambda *a: err(iln, "internal: diverging block fell through"), tailpos=True, want=self.ret_kind)
                         return ("if", cv, t1, rest(env2))
                     return self.expr(c, env, after_c)
                 err(iln, "unsupported control flow: an `if` statement that is not `if c { ..; return e; }` "
@@ -615,7 +616,7 @@ class FnTranslator:
                 ks = [x for _, x in vs]
                 if len(vs) == 2 and ks[0] == USIZEMAX and ks[1] == OPT(None) and vs[1][0] == "None":
                     return k(env2, "HintForever", HINT)       # (usize::MAX, None)
-                if len(vs) == 2 and ks[0] == NAT and kinds_agree(ks[1], OPT(NAT)) and (want == HINT or want is None and tailpos):
+                if len(vs) == 2 and ks[0] == NAT and kinds_agree(ks[1], OPT(NAT)) and want == HINT:
                     return k(env2, f"(Hint {vs[0][0]} {vs[1][0]})", HINT)
                 for kk in ks:
                     self.bindable(kk, ln)
@@ -725,7 +726,7 @@ class FnTranslator:
         if h in ("index", "rangefull"):
             err(ln, "`x[i]` / `x[..]` are outside the grammar")
         if h == "if":
-            return self.if_(e, env, k, tailpos)
+            return self.if_(e, env, k, tailpos, want)
         if h in ("unsafe", "macro"):
             err(ln, f"`{'unsafe' if h == 'unsafe' else e[2] + '!'}` is outside the translator's grammar")
         if h == "assign":
@@ -738,7 +739,7 @@ class FnTranslator:
             return self.mcall(e, env, k, tailpos, want)
         err(ln, f"unsupported expression ({h})")
 
-    def if_(self, e, env, k, tailpos):
+    def if_(self, e, env, k, tailpos, want=None):
         _, ln, c, then, els = e
         if els is None:
             err(ln, "`if` without `else` used as a value")
@@ -747,7 +748,7 @@ class FnTranslator:
             if ck != BOOL:
                 err(ln, "condition is not a bool")
             if tailpos:
-                return ("if", cv, self.block(then, env2, k, tailpos=True), self.block(els, env2, k, tailpos=True))
+                return ("if", cv, self.block(then, env2, k, tailpos=True, want=want), self.block(els, env2, k, tailpos=True, want=want))
             for b in (then, els):
                 if M.contains_return(b):
                     err(ln, "unsupported control flow: `return` inside an `if` used as a value")
@@ -761,8 +762,8 @@ class FnTranslator:
                     err(ln, f"the branches of the `if` have different representations ({got['k0']}, {vk})")
                 got.setdefault("k0", vk)
                 return Ret(v)
-            t1 = self.block(then, env2, kk)
-            t2 = self.block(els, env2, kk)
+            t1 = self.block(then, env2, kk, want=want)
+            t2 = self.block(els, env2, kk, want=want)
             t = self.tmp()
             return mk_bind(t, ("if", cv, t1, t2), k(env2, t, got["k"]))
         return self.expr(c, env, after_c)
